@@ -966,6 +966,10 @@ void DecodeMotoDC(tSymbolSize OpSize, Boolean Turn) {
             case TempNone:
                 OK = False;
                 break;
+            case TempReg:
+                WrStrErrorPos(ErrNum_StringOrIntOrFloatButReg, &Arg);
+                OK = False;
+                break;
             default:
                 assert(0);
             }
